@@ -24,7 +24,7 @@ try:
     else:
         subprocess.check_call(['git', 'init', '-q'], cwd=d)
         subprocess.check_call(['git', 'apply', '--whitespace=nowarn', os.path.abspath(patch)], cwd=d)
-    env = dict(os.environ, VERIF_REPO=d)
+    env = dict(os.environ, VERIF_REPO=d, VERIF_OUT=os.path.join(d, '.verif-out'))
     rc = subprocess.call(['/verif/vcheck'] + chk, env=env, cwd='/verif')
     print('mutant rc =', rc)
     sys.exit(rc)
